@@ -6,15 +6,17 @@ Line driver for C20.  Input lines (`<cfg>` has no blanks, fields separated by `.
   <cfg> all                  every schedule of the configuration (hook-to-hook granularity)
   <cfg> count                number of schedules only
   <cfg> sample <n> <seed>    up to n distinct random schedules
+  <cfg> upto <n> <seed>      every schedule if there are at most n of them, else n distinct random ones
   <cfg> one <sched>          the given schedule (digits = thread indices)
 
-cfg = `f<0|1>.e<0|1>.<thread>.<thread>…`, thread = `R` (requester) or `Ac<cb>x<fails><script>` with
+cfg = `f<0|1>.e<0|1>.<thread>.<thread>…`, thread = `R` (requester), `K` (requester through the notifier
+clone the creator kept), `F0`/`F1` (`set_fast_reload`), `C0`/`C1` (`set_callback(|| b)`) or `Ac<cb>x<fails><script>` with
 script letters `r` (request_reload), `t`/`u` (set_fast_reload true/false); `f1` = fast reload switched on
 before any thread starts; `e1` = enumerate only schedules in which `request_reload` returns right after
 it set the flag (a reduction that loses no behaviour, see lib/props/c20.py).
 
 Output per schedule: `<cfg>\t<sched>\t<prediction>` with
-  prediction = `P=<arrival point per step>|A=<i:g<gen>l<loadNo> | i:err>,…|G=<gen>@<step>[f],…|C=<creator calls>`
+  prediction = `P=<arrival point per step>|A=<i:g<gen>l<loadNo> | i:err>,…|G=<gen>@<step>[f],…|C=<creator calls>|O=<on_should_reload calls>`
 or `<cfg>\t<sched>\tbad:<reason>`.
 -/
 open MJ.Reloader
@@ -38,6 +40,11 @@ def parseScript (cs : List Char) : Option (List COp) :=
 def parseThread (s : String) : Option Thread :=
   match s.toList with
   | ['R'] => some .reqIdle
+  | ['K'] => some .reqIdle      -- requester through the notifier clone kept by the creator: same handle
+  | ['F', '0'] => some (.fastIdle false)
+  | ['F', '1'] => some (.fastIdle true)
+  | ['C', '0'] => some (.cbIdle false)
+  | ['C', '1'] => some (.cbIdle true)
   | 'A' :: 'c' :: c :: 'x' :: x :: rest =>
     match parseScript rest with
     | some sc => some (.acqIdle { cb := c == '1', fails := x == '1', script := sc })
@@ -60,6 +67,7 @@ def initState (c : Cfg) : State :=
   if c.fast then (step σ c.n).getD σ else σ
 
 def code : String → String
+  | "BeforeCheck" => "Q" | "BeforeRemark" => "F"
   | "AfterCheck" => "K" | "AfterReset" => "Z" | "BeforeCreate" => "B" | "AfterCreate" => "C"
   | "BeforeSet" => "S" | "AfterSet" => "T" | "Holding" => "H" | "Done" => "D" | _ => "?"
 
@@ -69,6 +77,8 @@ def allowed (c : Cfg) (σ : State) (i : Nat) : Bool :=
   let sym := match th with
     | some .reqIdle => (List.range i).all fun j => σ.threads[j]? != some .reqIdle
     | some (.acqIdle cfg) => (List.range i).all fun j => σ.threads[j]? != some (.acqIdle cfg)
+    | some (.fastIdle b) => (List.range i).all fun j => σ.threads[j]? != some (.fastIdle b)
+    | some (.cbIdle b) => (List.range i).all fun j => σ.threads[j]? != some (.cbIdle b)
     | _ => true
   let eagerOk :=
     if c.eager then
@@ -116,9 +126,9 @@ def finish (c : Cfg) (σ : State) (a : Trk) : String :=
       | none => some s!"{i}:err"
     | _ => none
   let alldone := (List.range c.n).all fun i => match σ.threads[i]? with
-    | some .acqDone | some .reqDone => true | _ => false
+    | some .acqDone | some .reqDone | some .fastDone | some .cbDone => true | _ => false
   if alldone then
-    s!"P={",".intercalate a.points.reverse}|A={",".intercalate acq}|G={",".intercalate a.builds.reverse}|C={σ.creates}"
+    s!"P={",".intercalate a.points.reverse}|A={",".intercalate acq}|G={",".intercalate a.builds.reverse}|C={σ.creates}|O={σ.onCalls}"
   else "bad:model-deadlock"
 
 partial def dfs (c : Cfg) (σ : State) (a : Trk) (emit : String → String → IO Unit) : IO Unit := do
@@ -165,6 +175,24 @@ def handle (line : String) (out : IO.FS.Stream) : IO Unit := do
         let cnt ← IO.mkRef 0
         dfs c σ0 {} fun _ _ => cnt.modify (· + 1)
         out.putStrLn s!"{cfgS}\tcount\t{← cnt.get}"
+      | ["upto", n, seed] =>
+        -- every schedule if there are at most n, else n distinct random ones
+        let n := n.toNat?.getD 0
+        let cnt ← IO.mkRef 0
+        dfs c σ0 {} fun _ _ => cnt.modify (· + 1)
+        if (← cnt.get) ≤ n then
+          dfs c σ0 {} fun s p => out.putStrLn s!"{cfgS}\t{s}\t{p}"
+        else
+          let mut seed := seed.toNat?.getD 1
+          let mut seen : Std.HashSet String := {}
+          let mut tries := 0
+          while seen.size < n && tries < 4 * n + 16 do
+            tries := tries + 1
+            let ((s, p), seed') := walk c σ0 {} seed
+            seed := seed'
+            if !seen.contains s then
+              seen := seen.insert s
+              out.putStrLn s!"{cfgS}\t{s}\t{p}"
       | ["sample", n, seed] =>
         let n := n.toNat?.getD 0
         let mut seed := seed.toNat?.getD 1
